@@ -44,7 +44,7 @@ fn mutator(rng: &mut Rng, n: &mut u32) -> String {
     *n += 1;
     let k = *n;
     let j = rng.range(1, 3);
-    match rng.below(34) {
+    match rng.below(36) {
         0..=2 => format!("x{j}=v{k}"),
         3 => format!("unset x{j}"),
         4 => format!("export ex{j}=v{k}"),
@@ -75,6 +75,10 @@ fn mutator(rng: &mut Rng, n: &mut u32) -> String {
         30 => format!("exec {}>&-", rng.range(3, 6)),
         31 => format!("exec {}</work/e1", rng.range(3, 6)),
         32 => "exec </work/e1".to_string(),
+        // a closed standard input: the next pipe()/open() of a subshell
+        // mechanism lands on descriptor 0
+        33 => "exec <&-".to_string(),
+        34 => format!("exec {}<&-", rng.range(3, 6)),
         _ => format!("ulimit -n {}", rng.pick(&[40u32, 50, 60])),
     }
 }
@@ -90,7 +94,7 @@ fn gen_test(rng: &mut Rng, n: &mut u32, id: &mut u32, depth: u32) -> Test {
     let child = muts(rng, n, 5);
     let mut child2 = if kind == Kind::Pipe { muts(rng, n, 4) } else { Vec::new() };
     // the second element's stdin is the pipe the positive control reads
-    child2.retain(|m| m != "exec </work/e1");
+    child2.retain(|m| m != "exec </work/e1" && m != "exec <&-");
     let nested = if depth < 2 && rng.below(3) == 0 {
         Some(Box::new(gen_test(rng, n, id, depth + 1)))
     } else {
